@@ -20,6 +20,6 @@ for i, line in enumerate(s):
     cells = line.rstrip().rstrip("|").split("|")
     if len(cells) < 6:
         continue
-    cells[-1] = f" {c.get('states', 0)} states / {c.get('transitions', 0)} trans., {c.get('impl_traces', 0)} replayed, {round(e['wall_s'])} s "
+    cells[-1] = f" {c.get('states', 0)} states / {c.get('transitions', 0)} trans., {c.get('traces_validated_against_impl', 0)} replayed, {round(e['wall_s'])} s "
     s[i] = "|".join(cells) + "|"
 open(p, "w").write("\n".join(s))
